@@ -81,7 +81,7 @@ func ValueDomain(n *Node) []string {
 	case "boolean":
 		scalars = []string{"true", "false", "true"}
 	case "decimal64":
-		scalars = []string{"1.5", "-0.05", "100"}
+		scalars = []string{"1.5", "-0.05", "100", "0"}
 	case "enumeration":
 		scalars = []string{"one", "two", "three-3"}
 		if len(n.Enums) > 0 {
@@ -101,7 +101,14 @@ func ValueDomain(n *Node) []string {
 		scalars = []string{"v1", "v2", "v3"}
 	}
 	if n.Kind == KLeafList {
-		return []string{LLDenotation(scalars[:1]), LLDenotation(scalars[:2]), LLDenotation(scalars[1:])}
+		hi, two := len(scalars), 2
+		if hi > 3 {
+			hi = 3
+		}
+		if two > hi {
+			two = hi
+		}
+		return []string{LLDenotation(scalars[:1]), LLDenotation(scalars[:two]), LLDenotation(scalars[1:hi])}
 	}
 	return scalars
 }
@@ -251,7 +258,8 @@ func GenLeafSels(t *rapid.T, u *Universe, min, max int, label string) []LeafSel 
 		for j := 0; j < nk; j++ {
 			ks = append(ks, rapid.IntRange(0, 2).Draw(t, label+"-k"))
 		}
-		v := rapid.IntRange(0, 2).Draw(t, label+"-v")
+		// (most domains have three values; the fourth draw reaches the extra value of the larger ones)
+		v := rapid.IntRange(0, 3).Draw(t, label+"-v")
 		sels = append(sels, LeafSel{T: ti, K: ks, V: v})
 	}
 	return sels
